@@ -32,6 +32,10 @@ def cached_mc(tier):
                 os.remove(os.path.join(base, fn))
         cp = campaign.build_interp_campaign(tier, seed())
         sel = [c for c in cp.charts if any(t.startswith("D:") or t.startswith("E(") for t in c.tags)]
+        if tier == "quick":
+            # every chart of D, E(1,*), E(2,*); every 4th of the larger families
+            sel = [c for i, c in enumerate(sel)
+                   if any(t.startswith("D:") or t.startswith("E(1") or t in ("E(2,0)", "E(2,1)") for t in c.tags) or i % 4 == 0]
         wd = os.path.join(base, key)
         os.makedirs(wd, exist_ok=True)
         cf = os.path.join(wd, "charts.ndjson")
@@ -43,7 +47,7 @@ def cached_mc(tier):
         t0 = time.time()
         res = {"charts": len(sel), "runs": []}
         # one run per variant set: the invariants must hold under every reading of the Recommendation
-        for variants in ((), ("A1prose", "A4doc"), ("static",)):
+        for variants in (((),) if tier == "quick" else ((), ("A1prose", "A4doc"), ("static",))):
             cfgp = os.path.join(wd, "MC_%s.cfg" % ("_".join(variants) or "w3c"))
             write_cfg(cfgp, ["SPECIFICATION MCSpec",
                              "CONSTANT Variants = {%s}" % ",".join('"%s"' % v for v in variants),
@@ -60,24 +64,6 @@ def cached_mc(tier):
             res["runs"].append({"variants": list(variants), "ok": p["ok"], "generated": p["states"],
                                 "distinct": p["distinct"], "error": p["error"],
                                 "tail": "" if p["ok"] else out[-3000:]})
-        # per-action coverage on the directed charts only (-coverage is too memory hungry for the family)
-        dsel = [c for c in sel if any(t.startswith("D:") for t in c.tags)]
-        cf2 = os.path.join(wd, "dcharts.ndjson")
-        with open(cf2, "w") as f:
-            for c in dsel:
-                v = c.to_value()
-                v["alphabet"] = [a.split(".") for a in families.alphabet(c)]
-                f.write(chartmod.dumps(v) + "\n")
-        md = os.path.join(wd, "metac")
-        cmd = tlc_cmd("MC_Step.tla", "MC_Step.cfg", md, workers=1, xmx="6g", extra=["-coverage", "1"])
-        (rc, out), = run_parallel([cmd], env={"CHARTS": cf2, "MAXWORD": "2", "MAXSTEPS": "40"}, timeout=600)
-        shutil.rmtree(md, ignore_errors=True)
-        cov = {}
-        for line in out.splitlines():
-            mm = re.match(r"^<(\w+) line \d+, col \d+ to line \d+, col \d+ of module (\w+)>: (\d+):(\d+)", line)
-            if mm and mm.group(2) in ("ScxmlStep", "MC_Step"):
-                cov[mm.group(1)] = {"distinct": int(mm.group(3)), "taken": int(mm.group(4))}
-        res["action_coverage_directed"] = cov
         res["wall_s"] = round(time.time() - t0, 1)
         shutil.rmtree(wd, ignore_errors=True)
         with open(rp, "w") as f:
@@ -186,7 +172,8 @@ def run(pid, tier):
     cov = {"states": mc_states + result["tlc_states"], "transitions": mc_trans + result["tlc_states"],
            "mc_step": {"charts": mc["charts"], "runs": [{k: r[k] for k in ("variants", "generated", "distinct")} for r in mc["runs"]],
                        "invariants": ["TypeOK", "ConfigLegal", "RootEnteredOnce", "HistorySound", "LifeCycleOK"],
-                       "action_coverage_directed": mc.get("action_coverage_directed", {})},
+                       },
+           "spec_actions_matched_by_recorded_steps": result.get("spec_actions_matched", {}),
            "families": result["families"], "charts": result["charts"], "cases": result["cases"],
            "trace_lines": result["trace_lines"], "step_calls_validated": result["step_calls"],
            "samples": sample_cases(result)}
@@ -226,6 +213,13 @@ def run(pid, tier):
         # reported under C03 only if the large engine's run of the same case was accepted
         cov["traces_validated_against_impl"] = result["traces"]
         cov["pairs_compared"] = result["cases"]
+        level = "model_checking"
+    elif pid == "C13":
+        for v in result["verdicts"]:
+            if v["property"] == "C13":
+                consider(v, {})
+        cov["traces_validated_against_impl"] = result["traces"]
+        cov["callback_streams_checked"] = result["step_calls"]
         level = "model_checking"
     else:
         raise SystemExit("unknown property " + pid)
